@@ -65,8 +65,8 @@ def EXHAUSTIVE(tier):
 
 def plan(tier, seed, avoid):
     if tier == "quick":
-        specs = [{"part": "init", "shard": i, "units": 30} for i in range(32)]
-        specs += [{"part": "switch", "shard": i, "units": 5} for i in range(8)]
+        specs = [{"part": "init", "shard": i, "units": 20} for i in range(32)]
+        specs += [{"part": "switch", "shard": i, "units": 4} for i in range(8)]
     else:
         specs = [{"part": "init", "shard": i, "units": 420} for i in range(60)]
         specs += [{"part": "switch", "shard": i, "units": 60} for i in range(12)]
